@@ -3,7 +3,7 @@ from props import *
 import C04_more, C04_gen, C04_create
 import symmetry_part
 
-LEAN_MODULES = ['C04'] + C04_more.LEAN_MODULES_EXTRA + C04_gen.LEAN_MODULES + C04_create.LEAN_MODULES + symmetry_part.LEAN_MODULES
+LEAN_MODULES = ['C04', 'C05gen'] + C04_more.LEAN_MODULES_EXTRA + C04_gen.LEAN_MODULES + C04_create.LEAN_MODULES + symmetry_part.LEAN_MODULES
 
 MANIFEST = dict(
     text="One Lean theorem per operator machine: for all parameters, raw scripts and source modes, delivered trace = the documented list function (Spec.*) of the source's values and ending; "
@@ -19,6 +19,11 @@ def check(ctx):
     R.compare(ctx, rows, proj_values, 'C04 delivered values and terminal', nontrivial=nontrivial_op)
     rows = R.run_kind(ctx, 'chains')
     R.compare(ctx, rows, proj_values, 'C04 chains = composition of the parts (Machine.seq)', nontrivial=lambda c, gd: gd.get('trace', '-') != '-')
+    # the multi-source operators' VALUES (the machines, specifications and every-interleaving theorems are C05's, incl. the machines
+    # regenerated from the source — RoProps/C05gen): C04 reads the delivered values and terminal of the same runs
+    rows = R.run_kind(ctx, 'multi')
+    R.compare(ctx, rows, proj_values, 'C04 multi-source operators (TakeUntil, SkipUntil, SampleWhen, ThrottleWhen, Merge*, Race*): delivered values and terminal',
+              nontrivial=lambda c, gd: gd.get('trace', '-') != '-', max_report=2)
     more_rule = C04_more.parts(ctx)
     gen = C04_gen.parts(ctx)
     cre = C04_create.parts(ctx)
